@@ -106,7 +106,11 @@ class Sym:
         s.m = module; s.L = Layout(module); s.fresh = 0; s.npaths = 0; s.timeout = timeout_ms; s.max_paths = max_paths
         s.uf = {}; s.axioms = []; s.queries = 0; s.calls = {}; s.deadline = None
         s.conc_trig = {}     # concrete mode: pinned values
-        s.funcs_run = set()
+        s.funcs_run = set(); s.check_divzero = True; s.divzero_paths = 0
+        s.contracts = {}    # mangled name -> callable(sym, st, args) -> return value: callee replaced by its (separately proved) contract
+        s.contracts_used = set()
+        s._bcache = {}
+        s.witnesses = []    # (Rat radicand, z3 var y) for every sqrt / length() witness introduced: y >= 0, y*y == radicand
 
     def newreal(s, name):
         s.fresh += 1; return z3.Real('%s_%d' % (name, s.fresh))
@@ -114,9 +118,18 @@ class Sym:
     def feasible(s, st, c):
         if isinstance(c, bool): return c
         s.queries += 1
-        sol = z3.Solver(); sol.set('timeout', s.timeout)
-        sol.add(*st.pc); sol.add(*s.axioms); sol.add(c)
-        return sol.check() != z3.unsat
+        # cheap attempt first: without the single-variable range bounds (fewer polynomials for nlsat); unsat is sound
+        nb = [x for x in st.pc if not s._isbound(x)]
+        if len(nb) < len(st.pc):
+            r, _ = check_sat(nb + list(s.axioms) + [c], max(300, s.timeout // 3))
+            if r == z3.unsat: return False
+        r, _ = check_sat(list(st.pc) + list(s.axioms) + [c], s.timeout)
+        return r != z3.unsat
+
+    def _isbound(s, x):
+        k = x.get_id()
+        if k not in s._bcache: s._bcache[k] = (len(_vars(x)) <= 1 and not z3.is_eq(x))
+        return s._bcache[k]
 
     # ---- operands
     def val(s, p, ty, st):
@@ -307,8 +320,15 @@ class Sym:
                     if b.n == 0: raise Unsupported('division by constant zero')
                 else:
                     nz = b.n != 0
-                    if not s.feasible(st, nz): return []      # only division by zero possible here: path leaves the reals
+                    out = []
+                    if s.check_divzero and s.feasible(st, b.n == 0):
+                        t = st.clone(); t.pc.append(b.n == 0); t.exc = 'DIVZERO'; out.append(('ret', t, None))
+                        s.divzero_paths += 1
+                    if not s.feasible(st, nz): return out      # only division by zero possible here
                     st.pc.append(nz)
+                    if out:
+                        st.env[ins.res] = rdiv(a, b)
+                        return out + [('resume', st, idx + 1)]
                 r = rdiv(a, b)
             env[ins.res] = r
         elif op == 'fneg':
@@ -459,6 +479,13 @@ class Sym:
                 if isinstance(r, list): return r
                 if normal: return [('br', st, normal)]
                 return None
+            if nm in s.contracts:
+                s.contracts_used.add(nm)
+                rv = s.contracts[nm](s, st, args)
+                if rv is None and ins.res is not None and not isinstance(rty, VoidTy): return []
+                if ins.res is not None: st.env[ins.res] = rv
+                if normal: return [('br', st, normal)]
+                return None
             if callee in s.m.funcs:
                 out = []
                 for fs, rv in s.call(callee, args, st.clone()):
@@ -534,6 +561,7 @@ class Sym:
             nn = (x.n * x.d >= 0)
             if not s.feasible(st, nn): return []
             st.pc += [nn, y >= 0, y * y * x.d == x.n]
+            s.witnesses.append((x, y))
             setr(Rat(y)); return None
         if base in ('sin', 'cos'):
             sv, cv = s.sincos(st, args[0]); setr(sv if base == 'sin' else cv); return None
@@ -571,7 +599,21 @@ class Sym:
 
 
 # ---------------------------------------------------------------------------------------------------
-def solve(pc, claim, extra=(), timeout_ms=30000):
+def check_sat(cons, timeout_ms):
+    """portfolio: z3's SMT core with nonlinear arithmetic lemmas (incremental linearisation + Groebner; strong on
+    equality-heavy UNSAT problems), then nlsat (complete CAD procedure; finds models).  returns (z3 result, solver)"""
+    cons = [c for c in cons if c is not True]
+    if any(c is False for c in cons): 
+        sol = z3.Solver(); sol.add(z3.BoolVal(False)); return sol.check(), sol
+    a = z3.Tactic('smt').solver(); a.set('timeout', max(200, int(timeout_ms * 0.3))); a.add(*cons)
+    r = a.check()
+    if r != z3.unknown: return r, a
+    b = z3.Solver(); b.set('timeout', max(300, int(timeout_ms * 0.7))); b.add(*cons)
+    r = b.check()
+    return r, b
+
+
+def solve(pc, claim, extra=(), timeout_ms=30000, npre=0):
     """is (pc and extra) => claim valid?  returns ('unsat'|'sat'|'unknown', model or None, seconds).
     nlsat pays for every irrelevant polynomial constraint, so weaker premise sets are tried first (sound: proving the
     claim from a subset of the path condition proves it from all of it): the last 1, the last 3, then everything.
@@ -579,17 +621,49 @@ def solve(pc, claim, extra=(), timeout_ms=30000):
     t0 = time.time()
     if claim is True: return 'unsat', None, 0.0
     neg = z3.BoolVal(True) if claim is False else z3.Not(claim)
+    if claim is not False and _size(claim, 20000) < 20000:
+        # polynomial identities are decided by z3's simplifier once both sides are expanded to sums of monomials;
+        # nlsat (CAD) would otherwise be asked to refute "p != 0" for an identically zero p in a dozen variables
+        neg2 = z3.simplify(neg, som=True, arith_lhs=True)
+        if z3.is_false(neg2): return 'unsat', None, time.time() - t0
     pc = list(pc)
-    for k, share in ((1, 0.08), (3, 0.12)):
-        if len(pc) > k + 2:
-            sol = z3.Solver(); sol.set('timeout', max(300, int(timeout_ms * share)))
-            sol.add(*pc[-k:]); sol.add(*extra); sol.add(neg)
-            if sol.check() == z3.unsat: return 'unsat', None, time.time() - t0
-    sol = z3.Solver(); sol.set('timeout', timeout_ms)
-    sol.add(*pc); sol.add(*extra); sol.add(neg)
-    r = sol.check()
+    # the first npre entries of pc are the case's preconditions: the non-trivial ones (not single-variable range
+    # bounds) are kept in every premise subset, the range bounds only in the full set
+    isb = [len(_vars(c)) <= 1 and not z3.is_eq(c) for c in pc]
+    ess = [c for c, b in zip(pc[:npre], isb[:npre]) if not b]
+    rest = pc[npre:]
+    nonbound = [c for c, b in zip(pc, isb) if not b]
+    tried = set()
+    for sub, share in ((ess, 0.05), (ess + rest[-1:], 0.08), (ess + rest[-3:], 0.12), (nonbound, 0.25)):
+        key = len(sub)
+        if len(sub) >= len(pc) or key in tried: continue
+        tried.add(key)
+        r, sol = check_sat(list(sub) + list(extra) + [neg], max(300, int(timeout_ms * share)))
+        if r == z3.unsat: return 'unsat', None, time.time() - t0
+    r, sol = check_sat(list(pc) + list(extra) + [neg], timeout_ms)
     m = sol.model() if r == z3.sat else None
     return str(r), m, time.time() - t0
+
+
+def _size(f, cap):
+    n = 0; todo = [f]; seen = set()
+    while todo and n < cap:
+        e = todo.pop()
+        if e.get_id() in seen: continue
+        seen.add(e.get_id()); n += 1
+        todo.extend(e.children())
+    return n
+
+
+def _vars(f):
+    out = set(); todo = [f]; seen = set()
+    while todo:
+        e = todo.pop()
+        if e.get_id() in seen: continue
+        seen.add(e.get_id())
+        if z3.is_const(e) and e.decl().kind() == z3.Z3_OP_UNINTERPRETED: out.add(str(e))
+        todo.extend(e.children())
+    return out
 
 
 def model_value(m, v):
